@@ -20,4 +20,22 @@ def body : String :=
     "(block (var (v1) (. strings Builder) ()) (call (. v1 WriteString) \"(?s)^(?:\") (range v2 v3 v0 (block (if _ (> v2 0) (block (call (. v1 WriteRune) '|')) _) (call (. v1 WriteRune) '(') (for (:= (v2) (0)) (< v2 (call len v3)) _ (block (switch (:= (v4) ((index v3 v2))) v4 (case ('\\\\') (if _ (== v2 (- (call len v3) 1)) (block (return nil (call (. errors New) \"invalid escape sequence\"))) _) (switch (:= (v5) ((index v3 (+ v2 1)))) v5 (case ('\\\\' '*' '?' '[' ']') (call (. v1 WriteByte) v4) (call (. v1 WriteByte) v5) (++ v2)) (default (return nil (call (. errors New) \"invalid escape sequence\"))))) (case ('*') (if _ (&& (< v2 (- (call len v3) 1)) (== (index v3 (+ v2 1)) '*')) (block (call (. v1 WriteString) \".*\") (++ v2)) (block (call (. v1 WriteString) \"[^/]*\")))) (case ('?') (call (. v1 WriteByte)",
     " '.')) (case ('.' '+' '(' ')' '|' '{' '}' '^' '$' '[' ']') (call (. v1 WriteByte) '\\\\') (call (. v1 WriteByte) v4)) (default (call (. v1 WriteByte) v4))) (++ v2))) (call (. v1 WriteRune) ')'))) (call (. v1 WriteString) \")$\") (return (call (. regexp Compile) (call (. v1 String)))))"]
 
+def builtinGlobBody : String :=
+  String.join [
+    "(block (:= (v5 v6) ((call (. util CompileGlobs) (call (array _ string) v3)))) (if _ (!= v6 nil) (block (return nil (call (. fmt Errorf) \"%s: %w\" (call (. v2 Name)) v6))) _) (:= (v7 v6) ((call (. util CompileGlobs) (call (array _ string) v4)))) (if _ (!= v6 nil) (block (return nil (call (. fmt Errorf) \"%s: %w\" (call (. v2 Name)) v6))) _) (:= (v8) ((assert (call (. v1 Local) \"module\") (* module)))) (:= (v9) ((call (. filepath Dir) (. v8 path)))) (:= (v10) ((call (. starlark NewList) nil))) (= (v6) ((call (. filepath WalkDir) v9 (func (block (if _ (!= v6 nil) (block (return v6)) _) (= (v11) ((slice v11 (call len v9) _ _))) (if _ (== (call len v11) 0) (block (return nil)) _) (= (v11) ((call (. filepath ToSlash) v11))) (if _ (== v11 \"/.dawn/build\") (block (return (. fs SkipDir))) _) (if _ (call",
+    " (. v12 IsDir)) (block (return nil)) _) (= (v11) ((slice v11 1 _ _))) (if _ (&& (call (. v5 MatchString) v11) (u! (call (. v7 MatchString) v11))) (block (call (. v10 Append) (call (. starlark String) v11))) _) (return nil)))))) (if _ (!= v6 nil) (block (return nil v6)) _) (return v10 nil))"]
+
+def osGlobBody : String :=
+  String.join [
+    "(block (:= (v4 v5) ((call (. util CompileGlobs) (call (array _ string) v2)))) (if _ (!= v5 nil) (block (return nil (call (. fmt Errorf) \"%s: %w\" (call (. v1 Name)) v5))) _) (:= (v6 v5) ((call (. util CompileGlobs) (call (array _ string) v3)))) (if _ (!= v5 nil) (block (return nil (call (. fmt Errorf) \"%s: %w\" (call (. v1 Name)) v5))) _) (:= (v7) ((call (. util Getwd) v0))) (var (v8) (array _ (. starlark Value)) ()) (= (v5) ((call (. filepath WalkDir) v7 (func (block (if _ (!= v5 nil) (block (return v5)) _) (switch _ _ (case ((== v9 v7)) (return nil)) (case ((&& (&& (> (call len v9) (call len v7)) (== (slice v9 _ (call len v7) _) v7)) (== (index v9 (call len v7)) (. os PathSeparator)))) (= (v9) ((slice v9 (+ (call len v7) 1) _ _))))) (if _ (&& (call (. v4 MatchString) v9) (u! (call (. v6 Ma",
+    "tchString) v9))) (block (= (v8) ((call append v8 (call (. starlark String) v9))))) _) (return nil)))))) (if _ (!= v5 nil) (block (return nil v5)) _) (return (call (. starlark NewList) v8) nil))"]
+
+def ignoredBody : String :=
+  "(block (return (&& (!= (. v0 ignore) nil) (call (. (. v0 ignore) MatchString) v1))))"
+
+def loadPackageBody : String :=
+  String.join [
+    "(block (if _ (call (. v0 ignored) (slice v2 2 _ _)) (block (return nil)) _) (if _ (== v1 nil) (block (= (v1) ((u& (lit (. sync WaitGroup))))) (defer (call (. v1 Wait)))) _) (:= (v3) ((call (. filepath Join) (. v0 root) (slice v2 2 _ _)))) (:= (v4 v5) ((call (. os ReadDir) v3))) (if _ (!= v5 nil) (block (return v5)) _) (range _ v6 v4 (block (switch _ _ (case ((call (. v6 IsDir))) (if _ (!= (call (. v6 Name)) \".dawn\") (block (:= (v7 _) ((call (. label Join) v2 (call (. v6 Name))))) (if (:= (v5) ((call (. v0 loadPackage) v1 v7))) (!= v5 nil) (block (return v5)) _)) _)) (case ((== (call (. v6 Name)) \"BUILD.dawn\")) (call (. v1 Add) 1) (go (call (func (block (call (. v0 loadModule) nil (u& (lit (. label Label) (kv Kind \"module\") (kv Package v2) (kv Name \"BUILD.dawn\")))) (call (. v1 Done)))))))))",
+    ") (return nil))"]
+
 end Dawn.Expected.Glob
